@@ -43,6 +43,7 @@ inductive Op where
   | cacheClear
   | warm (trs : Str)                               -- TRS(trs)
   | toDict (trs : Option Str)                      -- public trs_to_dict; the caller may mutate the returned dict
+  | toDictObj (trs : Str)                          -- trs_to_dict(TRS(trs)): builds a TRS (cache fill), returns a fresh dict
   | newDesc (id : Nat) (text : Str) (layout : Option Str) (cfg : CfgArg) (pq : Option Bool) (src : OptStr) (wait : Option Bool)
   | descParse (id : Nat) (kw : DescKw) (commit : Bool)
   | descParseTracts (id : Nat) (cfg : Option Str) (kw : TractKw)
@@ -96,6 +97,7 @@ def step (w : World) : Op → World × Out
   | .cacheClear => ({ w with cache := [] }, .none)
   | .warm trs => (w.fill [TRS.normIn (some trs)], .dict (w.look (some trs)))
   | .toDict trs => (w, .dict (TRS.trsToDict trs))
+  | .toDictObj trs => (w.fill [TRS.normIn (some trs)], .dict (TRS.trsToDict (some (w.look (some trs)).trs)))
   | .newDesc id text layout cfg pq src wait =>
     match descInit w.mc w.nextUid text layout cfg pq src wait w.look with
     | .error e => (w, .err e)
